@@ -752,10 +752,40 @@ def _reach_ids(v):
     return out
 
 
+def _undeepcopyable(kind):
+    import threading
+    if kind == 'lock':
+        return threading.Lock()
+    if kind == 'gen':
+        return (i for i in range(3))
+    if kind == 'rlock':
+        return threading.RLock()
+    return object()
+
+
 def mon_c12(im, p):
     """after `x = h` (and the other assignment forms) followed by non-linking mutations, the containers reachable from the
     stored value are disjoint from those reachable from the source"""
     ns = im.ns
+    if 'hostobj' in p:
+        # a host mapping / list that also holds something copy.deepcopy cannot copy (a lock, a generator): whatever the
+        # assignment does (the shipped code lets the TypeError out), it must not leave a stored value sharing containers
+        # with the host object
+        o = _undeepcopyable(p['hostobj'])
+        h = {'cart': [[1], 2], 'res': o, 'meta': {'tags': ['t']}} if p.get('shape') == 'dict' else [[1, 2], o, {'k': [3]}]
+        names = {'h': h}
+        try:
+            im.p.eval(p['src'], names=names)
+        except Exception:
+            pass
+        fails = []
+        for a in ('x', 'y', 'c'):
+            v = names.get(a)
+            if isinstance(v, (list, dict)) and (_reach_ids(v) & _reach_ids(h)):
+                fails.append({'signature': 'aliasing:' + a + '~h', 'what': f'after {p["src"]!r} with a host object holding a {p["hostobj"]}, '
+                              f'{a} shares mutable containers with the host object h', 'input': p})
+                break
+        return {'fail': fails, 'nontrivial': True}
     es, (out, extra, info) = run_eval_line(im, p['line'])
     if info is None or not (out.startswith('ok') or out.startswith('err')):
         return {'fail': [], 'nontrivial': False}
